@@ -159,9 +159,27 @@ def mk_conn(I, states=None, writer="sym", reader="sym", role=None, test_req="sym
             f[fld] = Opaque(nm) if I.ctx.branch(b) else None
         else:
             f[fld] = Opaque(nm) if mode else None
-    conn = Obj(repo.get(cls_q), f)
     g = I.ctx.ghost
-    g.update(W=[], A=[], EV=[], closed=0, drains=0, conn=conn)
+    g.update(W=[], A=[], EV=[], closed=0, drains=0)
+    # the object is built by the real __init__ (so that every attribute the class defines exists with its initial
+    # value - also ones a later version of the code adds) and then put into the arbitrary pre-state: the fields the
+    # contracts know are overwritten by the symbolic inputs above
+    conn = None
+    g["init_session"] = sess
+    try:
+        conn = I.call(repo.get(cls_q), [proto, sess.f["sender_comp_id"], sess.f["target_comp_id"], jr, "h", 1], {})
+    except (PyRaise, Outside) as e:
+        I.ctx.notes.append(("init_not_executed", str(e)[:200]))
+        conn = None
+    if isinstance(conn, Obj):
+        keep_codec = conn.f.get("_codec")
+        conn.f.update(f)
+        if isinstance(keep_codec, Obj):
+            conn.f["_codec"] = keep_codec
+            keep_codec.f.setdefault("SOH", "\x01")
+    else:
+        conn = Obj(repo.get(cls_q), f)
+    g["conn"] = conn
     return conn
 
 
@@ -356,6 +374,22 @@ def writer_calls(I):
     def drain(I_, a, k):
         g["drains"] += 1
         g["conn"].f["_journaler"].f["ops"].append(("drain",))
+        mode = g.get("drain_mode")
+        if mode == "fault":
+            # transport fault: the peer has reset the socket, drain() raises (A-IO dropped for this task)
+            if I_.ctx.choose(2, "drain_fault") == 1:
+                g["fault"] = {"drain_raise": g["drains"] - 1}
+                I_.raise_("ConnectionResetError")
+        elif mode == "disconnect" and not g.get("rely_fired"):
+            # drain() suspends; meanwhile another task of the same connection (reader / watchdog) runs the real
+            # disconnect(): the rely condition of this suspension point
+            if I_.ctx.choose(2, "rely_disconnect") == 1:
+                g["rely_fired"] = True
+                g["fault"] = {"disconnect_at_drain": g["drains"] - 1, "state": 3}
+                conn = g["conn"]
+                CS = I_.repo.get("asyncfix.connection.ConnectionState")
+                I_.call(I_.getattr(conn, "disconnect"), [I_.class_attr(CS, "DISCONNECTED_BROKEN_CONN")], {})
+                g["resumed_at"] = (len(g["EV"]), len(g["W"]))
 
     def close(I_, a, k):
         g["closed"] += 1
@@ -370,6 +404,8 @@ def session_cfg(extra_contracts=None, inline_resend=False):
         cfg.contracts["asyncfix.codec.Codec.encode"] = contract_encode
         cfg.contracts["asyncfix.journaler.Journaler.persist_msg"] = contract_persist_msg
         cfg.contracts["asyncfix.journaler.Journaler.set_seq_num"] = contract_set_seq_num
+        # __init__ loads the session from the journal: the harness supplies the (symbolic) session it returns
+        cfg.contracts["asyncfix.journaler.Journaler.create_or_load"] = lambda I, a, k: I.ctx.ghost["init_session"]
         for h in ("on_message", "on_connect", "on_disconnect", "on_logon", "on_logout", "on_state_change"):
             cfg.contracts[f"{CONN}.{h}"] = hook(h)
         cfg.contracts[f"{CONN}.should_replay"] = hook("should_replay")
@@ -433,6 +469,10 @@ def observe(I, conn, out, pre):
         rows.setdefault(d, []).append({"seq": seq, "present": SBool(z3.Select(pre[d], _t(seq)))})
     o["row_queries"] = rows
     o["times"] = list(I.ctx.ghost.get("times", []))
+    if I.ctx.ghost.get("fault"):
+        o["fault"] = dict(I.ctx.ghost["fault"])
+    if I.ctx.ghost.get("resumed_at"):
+        o["resumed_at"] = list(I.ctx.ghost["resumed_at"])
     I.ctx.observe.update(o)
     I.ctx.notes.append(("outcome", o["outcome"]))
     return post
@@ -475,6 +515,8 @@ def conn_native_case(op, inputs, msg_name="m", args=None, with_msg=True, comp_id
         case["msg"] = {"type": inputs.get(msg_name + "_type", ""), "tags": tags}
     if ob.get("times"):
         case["times"] = [float(x) for x in ob["times"]]
+    if ob.get("fault"):
+        case["faults"] = ob["fault"]
     return case
 
 
@@ -541,6 +583,7 @@ def eview(I, conn, outcome=None):
     v["A"] = [int_term(x) for (_m, x) in v["A"]]
     v["EVfull"] = v["EV"]
     v["EV"] = [e[0] for e in v["EV"]]
+    v["resumed_at"] = I.ctx.ghost.get("resumed_at")
     if outcome is not None:
         v["outcome"] = outcome[0] if outcome[0] == "ret" else "raise:" + outcome[1].name()
     return V(v)
